@@ -216,7 +216,10 @@ def exec_record(arn, machine_arn, name, status):
 
 
 EXEC_RECORDS = [exec_record(EX1, M1, "e1", "RUNNING"), exec_record(EX2, M1, "e2", "SUCCEEDED"),
-                exec_record(EX3, sm_arn("m9"), "e3", "FAILED"), exec_record(EX4, M2, "e4", "RUNNING")]
+                exec_record(EX3, sm_arn("m9"), "e3", "FAILED"), exec_record(EX4, M2, "e4", "RUNNING"),
+                # executions of machines whose name merely begins with / whose ARN merely resembles that of m1
+                exec_record(ex_arn("m1x", "e5"), sm_arn("m1x"), "e5", "RUNNING"), exec_record(ex_arn("m1:x", "e6"), sm_arn("m1:x"), "e6", "SUCCEEDED"),
+                exec_record("arn:aws:states:us-east-1:0123456789:execution:m1:e7", sm_arn("m1", region="us-east-1"), "e7", "RUNNING")]
 
 PRE1 = (("m1", "STANDARD"),)
 PRE2 = (("m1", "STANDARD"), ("m2", "EXPRESS"))
